@@ -97,3 +97,38 @@ Print Assumptions c20_unmarshal_is_reference_decoding.
 Print Assumptions c20_document_into_zero_target.
 Print Assumptions c20_reference_decoding_total.
 Print Assumptions c20_unknown_member_skipped.
+
+(* ---- laws of the reference decoding that users of JSON rely on, transported to the unmarshaller (Proofs/JsonLawsP.v):
+   an accepted object does not depend on the order of two adjacent members with different names; without the strict
+   option a member the target does not know changes nothing, wherever it stands and whatever it holds; with the strict
+   option it is rejected ---- *)
+From SbModel Require Import Spec.Conform Proofs.JsonLawsP.
+
+Theorem c20_object_member_order : forall pf o R t cur l1 m1 m2 l2 v rest,
+  jtarget t = true -> wf_ty t = true -> fst m1 <> fst m2 ->
+  (exists f0, forall f, (f0 <= f)%nat ->
+     unm pf f o R t cur (mirror (JObj (l1 ++ m1 :: m2 :: l2)) ++ rest) = Ok (v, rest)) ->
+  exists f0, forall f, (f0 <= f)%nat ->
+     unm pf f o R t cur (mirror (JObj (l1 ++ m2 :: m1 :: l2)) ++ rest) = Ok (v, rest).
+Proof. exact unm_json_member_order. Qed.
+
+Theorem c20_unknown_member_changes_nothing : forall pf o R t cur l1 name x l2 n b fs rest,
+  jtarget t = true ->
+  ptr_strip t = (n, b) -> underlying b = TStruct fs -> find_field name fs 0 = None -> strict o = false ->
+  exists f0, forall f, (f0 <= f)%nat ->
+    unm pf f o R t cur (mirror (JObj (l1 ++ (name, x) :: l2)) ++ rest) =
+    unm pf f o R t cur (mirror (JObj (l1 ++ l2)) ++ rest).
+Proof. exact unm_json_unknown_member. Qed.
+
+Theorem c20_strict_unknown_member_rejected : forall pf o R t cur l1 name x l2 n b fs rest,
+  jtarget t = true ->
+  ptr_strip t = (n, b) -> underlying b = TStruct fs -> find_field name fs 0 = None -> strict o = true ->
+  existsb (bytes_eqb name) (depr_of b) = false ->
+  (exists v, jdec pf o t cur (JObj l1) = Ok v) ->
+  exists f0, forall f, (f0 <= f)%nat ->
+    unm pf f o R t cur (mirror (JObj (l1 ++ (name, x) :: l2)) ++ rest) = Err EUnknownField.
+Proof. exact unm_json_strict_unknown_member. Qed.
+
+Print Assumptions c20_object_member_order.
+Print Assumptions c20_unknown_member_changes_nothing.
+Print Assumptions c20_strict_unknown_member_rejected.
